@@ -242,19 +242,24 @@ long __wrap_syscall(long nr, long a1, long a2, long a3, long a4, long a5, long a
 void* __real_malloc(size_t);
 void __real_free(void*);
 static uint64_t g_last_malloc_a, g_last_malloc_n, g_last_free_a;
+static uint64_t g_malloc_count, g_free_count;
 void* __wrap_malloc(size_t n) {
   void* p = __real_malloc(n);
   g_last_malloc_a = (uint64_t)p;
   g_last_malloc_n = n;
+  g_malloc_count++;
   return p;
 }
 void __wrap_free(void* p) {
   g_last_free_a = (uint64_t)p;
+  if (p) g_free_count++;
   __real_free(p);
 }
 uint64_t vf_last_malloc_addr() { return g_last_malloc_a; }
 uint64_t vf_last_malloc_size() { return g_last_malloc_n; }
 uint64_t vf_last_free_addr() { return g_last_free_a; }
+uint64_t vf_malloc_count() { return g_malloc_count; }
+uint64_t vf_free_count() { return g_free_count; }
 
 uint8_t vf_nondet_u8() { return (uint8_t)next_input(8); }
 uint16_t vf_nondet_u16() { return (uint16_t)next_input(16); }
